@@ -94,7 +94,7 @@ def plug():
     global _PLUG
     if _PLUG is None:
         from pybtex.plugin import Plugin
-        ks = {i: type('K%d' % i, (Plugin,), {}) for i in range(1, 20)}
+        ks = {i: type('K%d' % i, (Plugin,), {}) for i in range(1, 30)}
         _PLUG = {'by_id': ks, 'by_class': {v: k for k, v in ks.items()}}
     return _PLUG
 
@@ -103,6 +103,8 @@ FAKE_INST = [
     (G_IN, 'i', 10), (G_IN, 'bibtex', 11), (G_IN + '.aliases', 'ia', 12), (G_IN + '.aliases', 'i', 13),
     (G_IN + '.suffixes', '.i', 14), (G_BACK, 'i', 15), (G_BACK, 'latex', 16), (G_BACK + '.suffixes', '.i', 17),
     (G_BACK + '.aliases', 'ia', 18), (G_IN, 'i', 19),     # a duplicate: the first one wins
+    # entries that differ from others only in the case of a letter: look-ups are case-sensitive
+    (G_IN, 'I', 20), (G_IN + '.suffixes', '.I', 21), (G_IN + '.aliases', 'IA', 22), (G_BACK + '.suffixes', '.I', 23),
 ]
 
 class FakeEP:
@@ -422,6 +424,8 @@ def impl_writer(arg):
 FAKE6 = [
     (G_IN, 'bibtex', 1), (G_IN, 'pb', 2), (G_IN + '.aliases', 'pta', 1), (G_IN + '.suffixes', '.pt', 1), (G_IN + '.suffixes', '.pb', 2),
     (G_OUT, 'bibtex', 1), (G_OUT, 'pb', 2), (G_OUT + '.aliases', 'pta', 1), (G_OUT + '.suffixes', '.pt', 1), (G_OUT + '.suffixes', '.pb', 2),
+    # the same suffix / name in another case belongs to the OTHER probe
+    (G_IN + '.suffixes', '.PT', 2), (G_OUT + '.suffixes', '.PT', 2), (G_IN, 'PB', 1), (G_OUT, 'PB', 1),
 ]
 
 def probe_class(group, k):
@@ -533,7 +537,16 @@ def impl_real(arg):
             obs.append([norm(label), 0, list(v) if isinstance(v, (bytes, bytearray)) else norm(v if isinstance(v, str) else repr(v))])
         else:
             obs.append([norm(label), 1, norm('%s/%s' % (o[1], o[2]))])
-    with Env(PATH=empty_path(), TEXMFOUTPUT=None):
+    other = REAL_FORMATS[(fmt_i + 1) % 3][0]
+    with Env(PATH=empty_path(), TEXMFOUTPUT=None), Registry() as pp:
+        # run-time suffixes and names that differ only in case from each other / from installed ones:
+        # '.REF' -> this format, '.ref' -> another one; FMT (upper case) -> another one
+        for grp in (G_IN, G_OUT):
+            pp.register_plugin(grp + '.suffixes', '.REF', find_plugin(grp, fmt))
+            pp.register_plugin(grp + '.suffixes', '.ref', find_plugin(grp, other))
+            pp.register_plugin(grp, fmt.upper(), find_plugin(grp, other))
+            pp.register_plugin(grp + '.suffixes', suffixes[0].upper(), find_plugin(grp, other))
+        suffixes = suffixes + ['.REF']
         try:
             db = build_db(spec)
             doc = db.to_string(fmt)        # reference document, default encoding
@@ -743,6 +756,158 @@ def model_arg_fs(arg):
     return [script, [1, 'rd/in.bib'], 'r' if api >= 5 else 'rb', [], [], isfile, kp, 0]
 
 # ----------------------------------------------------------------------------------------
+# fn 9: the dispatch of the three shipped plug-ins, their bodies replaced by recorders
+# arg = [plugin (0 bibtex, 1 yaml, 2 bibtexml), writer?, codec, entry, payload, dst]
+_STUBS = None
+def stubs():
+    global _STUBS
+    if _STUBS is None:
+        from pybtex.exceptions import PybtexError
+        import pybtex.database.input.bibtex as ib, pybtex.database.input.bibyaml as iy, pybtex.database.input.bibtexml as ix
+        import pybtex.database.output.bibtex as ob, pybtex.database.output.bibyaml as oy, pybtex.database.output.bibtexml as ox
+        def head_check(x):
+            h = x[:1]
+            if h in ('!', b'!'):
+                raise PybtexError('probe error')
+            if h in ('?', b'?'):
+                raise ValueError('probe crash')
+        def record(self, x):
+            head_check(x)
+            self.data.__dict__.setdefault('seen', []).append(x)
+            return self.data
+        class RecBib(ib.Parser):
+            def parse_string(self, text):          # the body: the BibTeX grammar
+                return record(self, text)
+        class RecYaml(iy.Parser):
+            def parse_stream(self, stream):        # the body: yaml.load and the walk
+                return record(self, stream.read())
+        class RecXml(ix.Parser):
+            def parse_tree(self, tree):            # the body: the tree walk (ET is shimmed below)
+                return record(self, tree)
+        class ETShim:
+            @staticmethod
+            def fromstring(value):
+                return value
+            @staticmethod
+            def parse(stream):
+                return stream.read()
+        def chunks(payload):
+            return [] if payload == '~' else payload.split('|')
+        class WBib(ob.Writer):
+            def write_stream(self, bib_data, stream):   # the body
+                head_check(bib_data)
+                for c in chunks(bib_data):
+                    stream.write(c)
+        class WYaml(oy.Writer):
+            def _to_dict(self, bib_data):
+                return bib_data
+        class YamlShim:
+            @staticmethod
+            def dump(data, stream=None, encoding=None, **kw):
+                head_check(data)
+                out = data if encoding is None else data.encode(encoding)
+                if stream is None:
+                    return out
+                stream.write(out)
+        class WXml(ox.Writer):
+            def _write(self, bib_data, writer):     # the body: the entry walk
+                head_check(bib_data)
+                writer.write(bib_data)
+                writer.close()
+        _STUBS = {'R': [RecBib, RecYaml, RecXml], 'W': [WBib, WYaml, WXml], 'ET': (ix, ETShim), 'yaml': (oy, YamlShim)}
+    return _STUBS
+
+class Patched:
+    def __init__(self, mod, name, value):
+        self.mod, self.name, self.value = mod, name, value
+    def __enter__(self):
+        self.saved = getattr(self.mod, self.name)
+        setattr(self.mod, self.name, self.value)
+    def __exit__(self, *a):
+        setattr(self.mod, self.name, self.saved)
+
+def impl_dispatch(arg):
+    pl, rw, codec, entry, x, dst = arg
+    enter_sandbox()
+    ST = stubs()
+    enc = ENCODINGS[codec]
+    def run():
+        if rw:
+            w = ST['W'][pl](encoding=enc)
+            if entry == 0:
+                return w.to_string(S(x))
+            if entry == 1:
+                return list(w.to_bytes(S(x)))
+            o = mk_wdst(dst)
+            return write_result(w.write_file(S(x), o), o)
+        parser = ST['R'][pl](encoding=enc)
+        if entry == 0:
+            return seen_of(parser.parse_string(S(x)))
+        if entry == 1:
+            return seen_of(parser.parse_bytes(bytes(x)))
+        return seen_of(parser.parse_file(mk_fsrc(x)))
+    with Env(PATH=empty_path(), TEXMFOUTPUT=None), Patched(ST['ET'][0], 'ET', ST['ET'][1]), Patched(ST['yaml'][0], 'yaml', ST['yaml'][1]):
+        return call_impl(run)
+
+def oracle_dispatch(arg, out):
+    pl, rw, codec, entry, x, dst = arg
+    enc = ENCODINGS[codec]
+    if not rw:
+        return oracle_reader([1 if pl == 0 else 0, codec, entry, x], out)
+    if pl == 0:
+        return oracle_writer([1, codec, entry, x, dst], out)
+    if out[0] != 0:
+        return None
+    text = S(x)
+    try:
+        raw = text.encode(enc)
+    except UnicodeEncodeError:
+        return None
+    if pl == 1:
+        if entry == 0 and out[1] != norm(text):
+            return 'yaml to_string is not the dumped document'
+        if entry == 1 and out[1] != list(raw):
+            return 'to_bytes [yaml, %s] is not the to_string document encoded' % enc
+        if entry == 2 and dst[0] == 1 and out[1][1] != [[1, list(raw)]]:
+            return 'to_bytes [yaml, %s] is not the to_string document encoded (write_file)' % enc
+        return None
+    # bibtexml: to_string is the document (stripped), to_bytes / the file the declaration plus the document
+    if entry == 0:
+        return None if out[1] == norm(text.strip()) else 'bibtexml to_string is not the (stripped) document'
+    got = None
+    if entry == 1:
+        got = bytes(out[1])
+    elif entry == 2 and dst[0] == 1 and out[1][1]:
+        got = bytes(out[1][1][0][1])
+    if got is not None:
+        try:
+            body = strip_xml_decl(got, enc)
+        except UnicodeDecodeError:
+            body = None
+        if body is None or body.strip() != text.strip():
+            return 'bibtexml bytes [%s] are not the XML declaration plus the encoded document: %r' % (enc, got[:60])
+    return None
+
+def gen_dispatch(tier, rng):
+    texts = list(TEXTS) + ['  pad  ', 'a\nb\n', '€uro', 'Ж']
+    raws = RAWS if tier == 'thorough' else RAWS[:12] + RAWS[-6:]
+    for pl in (0, 1, 2):
+        for codec in (0, 1, 2, 3):
+            for t in texts:
+                yield ('plugin_dispatch', 9, [pl, 0, codec, 0, t, []])
+                yield ('plugin_dispatch', 9, [pl, 0, codec, 2, [0, [0, t]], []])
+                yield ('plugin_dispatch', 9, [pl, 1, codec, 0, t, []])
+                yield ('plugin_dispatch', 9, [pl, 1, codec, 1, t, []])
+                for dst in ([0, 1], [0, 0], [1], [2]):
+                    yield ('plugin_dispatch', 9, [pl, 1, codec, 2, t, dst])
+            for b in raws:
+                b = list(b)
+                yield ('plugin_dispatch', 9, [pl, 0, codec, 1, b, []])
+                yield ('plugin_dispatch', 9, [pl, 0, codec, 2, [1, b], []])
+                yield ('plugin_dispatch', 9, [pl, 0, codec, 2, [0, [1, b]], []])
+            yield ('plugin_dispatch', 9, [pl, 0, codec, 2, [2], []])
+
+# ----------------------------------------------------------------------------------------
 FUNCS = {
     1: ('pybtex.plugin register_plugin/find_plugin/enumerate_plugin_names (history)', impl_registry,
         ('T', 'N', ('L', 'X'))),
@@ -756,6 +921,7 @@ FUNCS = {
     7: ('all reader/writer entry points of the real plug-ins (oracle only)', impl_real,
         ('T', ('T', ('L', 'S'), ('L', ('T', 'S', 'S', ('L', ('T', 'S', 'S')), ('L', ('T', 'S', ('L', 'S')))))), 'X', 'X', 'B')),
     8: ('open failures on the real file system (open_raw/open_unicode/to_file/write_file/parse_file)', impl_fs, 'X'),
+    9: ('entry points of the shipped bibtex/yaml/bibtexml readers and writers, bodies replaced by recorders', impl_dispatch, ('T', 'X', 'X', 'X', 'X', 'X', 'X')),
 }
 
 class _Intern:
@@ -769,18 +935,27 @@ class _Intern:
             i = self.idx[key] = len(self.tab)
             self.tab.append(g)
         return i
+    def call(self, c):
+        if c[0] == 0:
+            return [0, self(c[1]), self(c[2]), c[3], c[4]]
+        if c[0] == 1:
+            nm = c[2]
+            if nm and nm[0] == 0:
+                nm = [0, self(nm[1])]
+            return [1, self(c[1]), nm, [self(c[3][0])] if c[3] else []]
+        return [c[0], self(c[1])]
     def calls(self, calls):
-        return [[c[0], self(c[1])] + list(c[2:]) for c in calls]
+        return [self.call(c) for c in calls]
 
 def model_arg(fn, arg):
     if fn == 1:
         mode, calls = arg
         inst = FAKE_INST if mode == 0 else real_installed()[0]
         it = _Intern()
-        return [[[it(g), n, k] for (g, n, k) in inst], [[it(g), d] for g, d in defaults_table()], it.calls(calls), it.tab]
+        return [[[it(g), it(n), k] for (g, n, k) in inst], [[it(g), it(d)] for g, d in defaults_table()], it.calls(calls), it.tab]
     if fn == 6:
         it = _Intern()
-        return [[[it(g), n, k] for (g, n, k) in FAKE6], [[it(g), d] for g, d in defaults_table()], it.calls(arg[0])] + list(arg[1:]) + [it.tab]
+        return [[[it(g), it(n), k] for (g, n, k) in FAKE6], [[it(g), it(d)] for g, d in defaults_table()], it.calls(arg[0])] + list(arg[1:]) + [it.tab]
     if fn == 8:
         return model_arg_fs(arg)
     return arg
@@ -1016,6 +1191,8 @@ def oracle(fn, arg, out):
         return oracle_reader(arg, out)
     if fn == 5:
         return oracle_writer(arg, out)
+    if fn == 9:
+        return oracle_dispatch(arg, out)
     return None
 
 def oracle_reader(arg, out):
@@ -1079,10 +1256,14 @@ def oracle_writer(arg, out):
 # known findings (known_findings.d/C17.json)
 def _sig_a(kind, fn, arg, detail):
     # the YAML writer ignores its encoding: to_bytes / write_file are always UTF-8
+    if kind == 'oracle' and fn == 9:
+        return arg[0] == 1 and arg[1] == 1 and arg[2] != 0 and str(detail).startswith('to_bytes [yaml, ')
     return (kind == 'oracle' and fn == 7 and REAL_FORMATS[arg[1]][0] == 'yaml' and REAL_ENCODINGS[arg[2]] != 'utf-8'
             and isinstance(detail, str) and detail.startswith('to_bytes [yaml, ') and 'is not the to_string document encoded' in detail)
 def _sig_b(kind, fn, arg, detail):
     # an empty document and an encoding that writes a byte-order mark: the file stays empty, to_bytes is the BOM
+    if kind == 'oracle' and fn == 9:
+        return arg[0] == 0 and arg[1] == 1 and arg[2] == 3 and arg[3] == 2 and arg[4] == [126] and arg[5] == [1] and 'write_file did not write exactly' in str(detail)
     if kind == 'oracle' and fn == 5:
         # the same with the probe writer: nothing written ("~"), utf-16, a named file
         return arg[0] == 1 and arg[1] == 3 and arg[2] == 2 and arg[3] == [126] and arg[4] == [1] and 'write_file did not write exactly' in str(detail)
@@ -1094,8 +1275,12 @@ def replay_known(finding):
     pin = finding.get('pinned')
     if not pin:
         return None
-    out = FUNCS[pin['fn']][1](norm(pin['arg']))
-    return oracle(pin['fn'], norm(pin['arg']), out)
+    arg = norm(pin['arg'])
+    out = FUNCS[pin['fn']][1](arg)
+    m = oracle(pin['fn'], arg, out)
+    # "still fails" means: fails in the way the finding describes (another failure of the pinned input is a violation, reported by the streams)
+    sig = KNOWN_SIGNATURES.get(finding['id'])
+    return m if (m and sig and sig('oracle', pin['fn'], arg, m)) else None
 
 # ----------------------------------------------------------------------------------------
 # per-run table lemma: the installed entry points and _DEFAULT_PLUGINS of this environment are
@@ -1128,10 +1313,10 @@ def generated_obligations(ck):
              'ok': ok, 'log': log}]
 
 # ----------------------------------------------------------------------------------------
-RULE = ('registry: all histories of <= 3 registrations (thorough: also <= 4 over one group, <= 5 over 6 operations) over 2 groups x {name, alias, suffix} x 2 names x force '
+RULE = ('registry: all histories of <= 3 registrations (thorough: also <= 4 over one group, <= 5 over 6 operations) over 2 groups x {name, alias, suffix} x 2 names x force, plus all histories <= 3 over pairs differing only in case (x/X as name, alias, suffix) '
         'against a table-driven entry_points(), each followed by a fixed probe vector of 16 look-ups, plus pinned (F11) and random/malformed histories against the real installed entry points; '
         '_open/open_raw/open_unicode: the full matrix of (first, fallback) opener outcomes x TEXMFOUTPUT x mode x file-name shapes, and of isfile x kpsewhich outcomes (a real subprocess); '
-        'probe plug-ins (recording parse_stream / chunked write_stream) through every BaseParser/BaseWriter method and every module-level function x 4 codecs (utf-8, latin-1, ascii, utf-16) over fixed and random texts / byte strings incl. malformed UTF-8/UTF-16; '
+        'recorder subclasses of the real bibtex/yaml/bibtexml readers and writers (fn 9) and probe plug-ins (recording parse_stream / chunked write_stream) through every BaseParser/BaseWriter method and every module-level function x 4 codecs (utf-8, latin-1, ascii, utf-16) over fixed and random texts / byte strings incl. malformed UTF-8/UTF-16; '
         'oracle only: the three real formats x aliases x every registered suffix x 5 encodings x all reader and writer entry points over generated databases (incl. CRLF documents); '
         'open failures on the real file system through open_raw/open_unicode/to_file/write_file/parse_file. '
         'distinct = distinct (function, argument); non-trivial = a registration succeeded / an open attempt failed or fell back / a non-empty suffix / any glue case.')
@@ -1151,7 +1336,7 @@ ASSUMPTIONS = [
     'POSIX: os.linesep is "\\n" (text files are written without newline translation)',
 ]
 PARTIAL = [
-    'entry-point agreement is proved for BaseParser/BaseWriter and the module-level functions over an abstract plug-in; of the overrides only the YAML writer is modelled (yaml_to_bytes_refuted / _partial), the BibTeXML overrides and all parse_stream/write_stream bodies are covered by the oracle only',
+    'entry-point agreement is proved for BaseParser/BaseWriter, the module-level functions and the dispatch of the three shipped plug-ins (stream kind, overrides, XML declaration / encoding hand-over) over abstract bodies; the bodies themselves (BibTeX grammar, yaml.load/dump, ElementTree, tree walkers) are covered end to end by the oracle only',
     'parse_file of a named file reads with universal newlines: the theorem relates it to parse_string of the newline-normalised text (equal when the text has no CR)',
     'write_file_writes_to_bytes is refuted as stated (FC17b); write_file_writes_to_bytes_partial needs "something was written or the empty text encodes to nothing"',
     'codec round trip is proved for the four modelled codecs utf-8, latin-1, ascii, utf-16 (utf8_roundtrip, utf16_roundtrip, modelled_entry_points_agree); for other encodings it is a hypothesis of entry_points_agree',
@@ -1203,7 +1388,8 @@ def enum(g):
 def probe_vector(groups):
     v = []
     for g in groups:
-        v += [find(g, 'x'), find(g, 'i'), find(g, 'ia'), find(g, None, 'f.x'), find(g, None, 'd.x/f.i'), find(g), enum(g), enum(g + '.aliases')]
+        v += [find(g, 'x'), find(g, 'i'), find(g, 'ia'), find(g, None, 'f.x'), find(g, None, 'd.x/f.i'), find(g), enum(g), enum(g + '.aliases'),
+              find(g, 'X'), find(g, 'I'), find(g, 'IA'), find(g, None, 'f.X'), find(g, None, 'F.x'), find(g, None, 'f.I')]
     return v
 
 def reg_alphabet(groups, names=(0, 1)):
@@ -1221,6 +1407,10 @@ def gen_registry(tier, rng):
     plans = [(reg_alphabet(groups), 3)]
     if tier == 'thorough':
         plans += [(reg_alphabet([G_IN]), 4), (reg_alphabet([G_IN], names=(0,)), 5)]
+    # pairs that differ only in case, registered to different classes: ('x', 'X') as name, alias and suffix
+    case_ops = [(G_IN + kind, nm, force) for kind, pool in (('', ['x', 'X']), ('.aliases', ['x', 'X']), ('.suffixes', ['.x', '.X', '.I']))
+                for nm in pool for force in (0, 1)]
+    plans.append((case_ops, 3))
     seen = set()
     for alphabet, maxlen in plans:
         for n in range(0, maxlen + 1):
@@ -1239,15 +1429,21 @@ def gen_registry(tier, rng):
         [find(G_IN, '.x'), find(G_IN, None, 'a'), find(G_IN, ''), find(G_IN, '', ''), find('nogroup', 'x'), find('nogroup', None, None, 3)],
         [reg(G_IN + '.suffixes', 'x', 1, 0), reg('nogroup', 'x', 1, 0), reg('nogroup.suffixes', 'x', 1, 0), reg('.suffixes', '.x', 1, 1), reg('.aliases', 'x', 1, 1)],
         [reg(G_IN + '.aliases', 'x', 1, 0), reg(G_IN, 'x', 2, 0), find(G_IN, 'x')],
+        # case: '.REF' and '.ref' are different suffixes, 'Bib' and 'bib' different names
+        [reg(G_IN + '.suffixes', '.REF', 1, 0), find(G_IN, None, 'a.REF'), find(G_IN, None, 'a.ref'), reg(G_IN + '.suffixes', '.ref', 2, 0),
+         find(G_IN, None, 'a.REF'), find(G_IN, None, 'a.ref'), find(G_IN, None, 'a.Ref'), reg(G_IN + '.suffixes', '.REF', 3, 1), find(G_IN, None, 'a.REF'), find(G_IN, None, 'a.ref')],
+        [reg(G_IN, 'Bib', 1, 0), reg(G_IN, 'bib', 2, 0), find(G_IN, 'Bib'), find(G_IN, 'bib'), find(G_IN, 'BIB'), reg(G_IN + '.aliases', 'AL', 3, 0), find(G_IN, 'AL'), find(G_IN, 'al'),
+         find(G_IN, 'BibTeX'), find(G_IN, 'BIBTEX'), find(G_IN, None, 'a.BIB'), find(G_IN, None, 'a.Bib'), enum(G_IN)],
     ]
     for mode in (0, 1):
         for calls in pinned:
             yield ('registry_pinned', 1, [mode, calls])
     # random / malformed histories against the real installed entry points (and the fake table)
-    real_names = {G_IN: ['bibtex', 'yaml', 'bibyaml', 'bibtexml'], G_OUT: ['bibtex', 'yaml', 'bibyaml'], G_BACK: ['latex', 'md', 'text', 'html'],
-                  'pybtex.style.names': ['plain', 'last_first', 'lastfirst']}
-    sfxs = ['.bib', '.yaml', '.xml', '.md', '.x', '.y', '', '.', '..', 'x']
-    fnames = ['a.bib', 'dir.x/a', 'a.x', '.x', 'a.b.x', '..x', 'a.', 'd/.bib', 'd/..x', '', 'a.yaml', 'x/y.z/w.md', '...', 'a/b', 'a..x']
+    real_names = {G_IN: ['bibtex', 'yaml', 'bibyaml', 'bibtexml', 'BibTeX', 'YAML'], G_OUT: ['bibtex', 'yaml', 'bibyaml', 'Bibtex'], G_BACK: ['latex', 'md', 'text', 'html', 'LaTeX', 'MD'],
+                  'pybtex.style.names': ['plain', 'last_first', 'lastfirst', 'Plain']}
+    sfxs = ['.bib', '.yaml', '.xml', '.md', '.x', '.y', '', '.', '..', 'x', '.X', '.BIB', '.Bib', '.Ref', '.REF', '.ref', '.Yaml']
+    fnames = ['a.bib', 'dir.x/a', 'a.x', '.x', 'a.b.x', '..x', 'a.', 'd/.bib', 'd/..x', '', 'a.yaml', 'x/y.z/w.md', '...', 'a/b', 'a..x',
+              'a.X', 'A.x', 'a.BIB', 'a.Bib', 'a.REF', 'a.ref', 'a.Ref', 'd.X/f.y', 'a.Yaml', 'A.MD']
     n = 150 if tier == 'quick' else 1500
     for i in range(n):
         mode = 1 if i % 3 else 0
@@ -1257,14 +1453,14 @@ def gen_registry(tier, rng):
             kind = rng.choice(['', '', '.aliases', '.suffixes', '.suffixes.aliases', '.aliases.suffixes'])
             r = rng.random()
             if r < 0.45:
-                pool = (real_names.get(g, []) + ['x', 'y', 'i', 'ia']) if kind != '.suffixes' else sfxs
+                pool = (real_names.get(g, []) + ['x', 'y', 'i', 'ia', 'X', 'I']) if kind != '.suffixes' else sfxs
                 if rng.random() < 0.1:
                     pool = sfxs + ['', '.x']
                 calls.append(reg(g + kind, rng.choice(pool), rng.choice([0, 1, 1, 2, 3]), rng.random() < 0.3))
             elif r < 0.9:
                 q = rng.random()
                 if q < 0.5:
-                    calls.append(find(g, rng.choice(real_names.get(g, []) + ['x', 'y', 'i', 'ia', '.x', ''])))
+                    calls.append(find(g, rng.choice(real_names.get(g, []) + ['x', 'y', 'i', 'ia', '.x', '', 'X', 'I', 'IA'])))
                 elif q < 0.85:
                     calls.append(find(g, rng.choice([None, None, '']), rng.choice(fnames)))
                 elif q < 0.95:
@@ -1359,14 +1555,17 @@ def gen_module(tier, rng):
         [reg(G_IN + '.aliases', 'rta', 2, 0), reg(G_OUT + '.aliases', 'rta', 1, 0)],
         [reg(G_IN + '.suffixes', '.rt', 2, 0), reg(G_OUT + '.suffixes', '.rt', 2, 0), reg(G_IN + '.suffixes', '.pt', 2, 0), reg(G_OUT + '.suffixes', '.pt', 2, 1)],
         [reg(G_IN, 'bibtex', 2, 1), reg(G_OUT, 'bibtex', 2, 1)],
+        [reg(G_IN + '.suffixes', '.RT', 1, 0), reg(G_OUT + '.suffixes', '.RT', 1, 0), reg(G_IN + '.suffixes', '.rt', 2, 0), reg(G_OUT + '.suffixes', '.rt', 2, 0),
+         reg(G_IN, 'RT', 2, 0), reg(G_OUT, 'RT', 2, 0), reg(G_IN, 'rt', 1, 0), reg(G_OUT, 'rt', 1, 0)],
     ]
-    fmts = [[], [0, 'bibtex'], [0, 'pb'], [0, 'pta'], [0, 'rt'], [0, 'rta'], [0, 'nope'], [1, 1], [1, 2], [0, '']]
-    fnames = [[], ['f.pt'], ['f.pb'], ['f.rt'], ['f.zz'], ['f']]
+    fmts = [[], [0, 'bibtex'], [0, 'pb'], [0, 'pta'], [0, 'rt'], [0, 'rta'], [0, 'nope'], [1, 1], [1, 2], [0, ''], [0, 'RT'], [0, 'PB'], [0, 'Bibtex']]
+    fnames = [[], ['f.pt'], ['f.pb'], ['f.rt'], ['f.zz'], ['f'], ['f.RT'], ['f.Rt'], ['f.PT'], ['F.pt']]
     payloads = ['abc', 'café \r\n x', '!e']
     for setup in setups:
         for fmt in fmts:
-            for codec in ((0, 1) if tier == 'quick' else (0, 1, 2, 3)):
-                for t in payloads:
+            combos = [(0, 'abc'), (1, 'café \r\n x'), (0, '!e')] if tier == 'quick' else [(c, t) for c in (0, 1, 2, 3) for t in payloads]
+            for codec, t in combos:
+                if True:
                     yield ('module_level', 6, [setup, codec, 0, fmt, t, [], []])
                     yield ('module_level', 6, [setup, codec, 3, fmt, t, [], []])
                     yield ('module_level', 6, [setup, codec, 4, fmt, t, [], []])
@@ -1430,6 +1629,6 @@ def gen_fs(tier, rng):
 
 def gen(tier, rng):
     sandbox()
-    for g in (gen_registry, gen_splitext, gen_open, gen_glue, gen_module, gen_real, gen_fs):
+    for g in (gen_registry, gen_splitext, gen_open, gen_glue, gen_module, gen_dispatch, gen_real, gen_fs):
         for c in g(tier, rng):
             yield c
